@@ -673,6 +673,58 @@ func infoChannel(o vh.Opts, r *vh.RNG, rep *vh.Report) {
 	rep.AddChannel(ch, o.Driver)
 }
 
+// ---------------------------------------------------------------- MID blocks of a sealed fraction (pure)
+
+func midsBlockChannel(o vh.Opts, r *vh.RNG, rep *vh.Report) {
+	ch := vh.NewChannel("ids.unpack", "one ID block: the sealer's DiskIDsBlock.packMIDs then UnpackCache.unpackMIDs (what getLIDsBorders of a sealed fraction reads) vs C03's codec model = the stored MIDs: descending MIDs whose neighbour deltas sit around 2^7k borders, 2^31, 2^32, 2^34, 2^35 ms (24.9 .. 398 days) and beyond, ascending and zero deltas; non-trivial = some delta >= 2^31 ms")
+	add := func(mids []uint64, tag string) {
+		n, got := frac.VerifC14PackUnpackMIDs(mids)
+		big := false
+		for i := 1; i < len(mids); i++ {
+			d := mids[i-1] - mids[i]
+			if mids[i] > mids[i-1] {
+				d = mids[i] - mids[i-1]
+			}
+			big = big || d >= 1<<31
+		}
+		ch.Add("midsrt "+u64s(mids), fmt.Sprintf("ok %d %s", n, u64s(got)), big, tag)
+	}
+	base := uint64(1_790_000_000_000)
+	var deltas []uint64
+	for _, k := range []uint{6, 7, 13, 14, 20, 21, 27, 28, 30, 31, 32, 33, 34, 35, 36, 41, 42} {
+		for _, e := range []int64{-2, -1, 0, 1, 2} {
+			deltas = append(deltas, uint64(int64(1)<<k+e))
+		}
+	}
+	for _, d := range deltas { // newest, one document d ms older, one more 1 ms older
+		add([]uint64{base, base - d, base - d - 1}, "shape=single-gap")
+		add([]uint64{base + 5, base, base - d, base - d - 1000, base - d - 1001}, "shape=gap-in-the-middle")
+	}
+	for _, days := range []uint64{20, 25, 30, 90, 190, 199, 400} {
+		d := days * 86_400_000
+		add([]uint64{base, base - 1, base - d, base - d - 7, base - 2*d}, fmt.Sprintf("shape=days-%d", days))
+	}
+	add([]uint64{maxU64, base, 1}, "shape=stub-first")               // the stub ID of LID 0 comes first in block 0
+	add([]uint64{5, base, base, 3, maxU64, 0}, "shape=non-monotone") // the codec does not depend on the order
+	for i := 0; i < o.Pick(300, 3000); i++ {
+		m := base + uint64(r.Intn(1_000_000))
+		mids := []uint64{m}
+		for j := 0; j < r.Range(1, 12); j++ {
+			d := deltas[r.Intn(len(deltas))]
+			if r.Chance(1, 2) {
+				d = uint64(r.Intn(100_000))
+			}
+			if d > m {
+				d = m
+			}
+			m -= d
+			mids = append(mids, m)
+		}
+		add(mids, "shape=random")
+	}
+	rep.AddChannel(ch, o.Driver)
+}
+
 // ---------------------------------------------------------------- calcEnsuredIDsCount (pure)
 
 // infoFrac is a frac.Fraction that only has an Info (what calcEnsuredIDsCount reads of the next fraction)
@@ -1402,6 +1454,24 @@ func childMain(path string) {
 				}
 			}
 		}
+		// directed: the older half of every small fraction (from its oldest document to its median one), both orders
+		for k, f := range fracs {
+			if f.dense > 0 {
+				continue
+			}
+			var ms []uint64
+			for _, b := range f.bulks {
+				for _, d := range b {
+					ms = append(ms, d.mid)
+				}
+			}
+			if len(ms) < 2 {
+				continue
+			}
+			sort.Slice(ms, func(a, b int) bool { return ms[a] < ms[b] })
+			doSearch(fmt.Sprintf("h%d.desc", k), ms[0], ms[len(ms)/2], pb.Order_ORDER_DESC)
+			doSearch(fmt.Sprintf("h%d.asc", k), ms[0], ms[len(ms)/2], pb.Order_ORDER_ASC)
+		}
 		for q := 0; q < sc.Queries; q++ {
 			var qf, qt uint64
 			for tries := 0; ; tries++ {
@@ -1919,6 +1989,30 @@ func newestLateScenario(r *vh.RNG, name string) scenario {
 	return sc
 }
 
+// sealed fractions that hold documents far older than their neighbours: 25, 30, 90, 190 days (MID deltas of
+// 2^31 .. 2^34 ms inside one ID block), controls 20 days, 2^31 ms +- 1 s, 400 days
+func farPastScenario(seed int64) scenario {
+	day := int64(86_400_000)
+	mk := func(gaps ...int64) fracSpec {
+		fs := fracSpec{Sealed: true}
+		var bulk []docSpec
+		bulk = append(bulk, docSpec{Off: -1_000_000}, docSpec{Off: -1_000_500})
+		off := int64(-1_000_500)
+		for _, g := range gaps {
+			off -= g
+			bulk = append(bulk, docSpec{Off: off}, docSpec{Off: off - 3}, docSpec{Off: off - 70_000})
+			off -= 70_000
+		}
+		fs.Bulks = [][]docSpec{bulk}
+		return fs
+	}
+	return scenario{Name: "far-past", Seed: seed, Queries: 16, Fetches: 6, Fracs: []fracSpec{
+		mk(25 * day), mk(30*day, 90*day), mk(190 * day), mk(20*day, 400*day),
+		mk(int64(1)<<31-1000, int64(1)<<31+1000), mk(int64(1)<<32, int64(1)<<33+5),
+		{Sealed: false, Bulks: [][]docSpec{{{Off: -100}, {Off: -30 * day}, {Off: -95 * day}}}},
+	}}
+}
+
 func systemOracle(o vh.Opts, rep *vh.Report, scs []scenario) {
 	fi := vh.NewChannel("frac.info", "REAL fractions (FracManager + GrpcV1.Bulk + seal + two restarts): Info().From/To/DocsTotal/Distribution and IsIntersecting on probe pairs vs SV.FracInfo (appendBulk per bulk, sealed = BuildDistribution over the stub and all MIDs); stages live / reloaded (.frac-cache) / reloaded-nocache (index info block); non-trivial = fraction has a distribution")
 	so := vh.NewOracle("prune.search", "real GrpcV1.Search(service:c14, [qf,qt]) over active+sealed fractions, live and after restarts, returns exactly the ingested documents with qf <= MID <= qt (every document of every fraction examined by the harness); non-trivial = some fraction was pruned and some document was in range")
@@ -2130,6 +2224,9 @@ func main() {
 	if run("collector") {
 		collectorChannel(o, rng.Fork(), rep)
 	}
+	if run("ids") {
+		midsBlockChannel(o, rng.Fork(), rep)
+	}
 	if run("prune") || run("frac") {
 		r := rng.Fork()
 		var scs []scenario
@@ -2139,6 +2236,7 @@ func main() {
 		scs = append(scs, tiesWitness(int64(r.U64()>>1)))
 		scs = append(scs, retriedWitness(int64(r.U64()>>1)))
 		scs = append(scs, newestLateWitness(int64(r.U64()>>1)))
+		scs = append(scs, farPastScenario(int64(r.U64()>>1)))
 		for i := 0; i < o.Pick(2, 8); i++ {
 			scs = append(scs, newestLateScenario(r.Fork(), fmt.Sprintf("newest-late%d", i)))
 		}
